@@ -142,12 +142,20 @@ type Act struct {
 	// the REST of such a transaction can be judged.
 	Swallow bool
 	Yield   bool // yield to the scheduler before this action (SCHED drivers)
+	// Probe (Op "insert"): the insert callback first reads every column of its new row;
+	// a row that was just created holds nothing, whatever its offset held before
+	Probe bool
+	// Call (Op "call"): something done from inside the body that is not part of the
+	// transaction (schema changes such as CreateIndex while the transaction is open)
+	Call func() error
 }
 
 func (a Act) String() string {
 	var sb strings.Builder
 	sb.WriteString(a.Op)
 	switch a.Op {
+	case "call":
+		sb.WriteString(":" + a.Key)
 	case "put", "del":
 		fmt.Fprintf(&sb, "@%d", a.Off)
 	case "bulk":
@@ -156,6 +164,9 @@ func (a Act) String() string {
 		sb.WriteString(":" + a.Key)
 	case "rekey":
 		sb.WriteString(":" + a.Key + "->" + a.NewKey)
+	}
+	if a.Probe {
+		sb.WriteString("(reads-first)")
 	}
 	if a.FailCb {
 		sb.WriteString("!cb-error")
@@ -497,6 +508,18 @@ func (w *World) body(acts []Act, fail bool, p *pending, res *TxnRes) func(txn *c
 			switch a.Op {
 			case "insert":
 				off, err := txn.Insert(func(r column.Row) error {
+					if a.Probe {
+						for _, c := range w.M.Cols {
+							k := w.M.Col(c.Name)
+							if k.IsKey {
+								continue
+							}
+							if v, ok := k.Read(r, c.Name); ok {
+								res.Viol = append(res.Viol, eng.Violation{Assert: "insert/fresh-row-empty", Witness: "a new row already holds a value inside its own insert callback",
+									Detail: fmt.Sprintf("insert at offset %d: column %q reads %s before the callback stored anything", r.Index(), c.Name, k.Show(v))})
+							}
+						}
+					}
 					w.applyWrites(txn, r, r.Index(), a.W, p)
 					if a.FailCb {
 						return errCb
@@ -660,6 +683,10 @@ func (w *World) body(acts []Act, fail bool, p *pending, res *TxnRes) func(txn *c
 				}
 				if len(rows) > 0 {
 					p.del = append(p.del, rows[0])
+				}
+			case "call":
+				if err := a.Call(); err != nil {
+					res.Viol = append(res.Viol, eng.Violation{Assert: "call/error", Witness: a.Key + " failed inside a transaction body", Detail: err.Error()})
 				}
 			default:
 				panic("unknown act " + a.Op)
